@@ -37,6 +37,12 @@ def run_table(tier, seed):
                     c = {"control": ctl, "iteration_limit": 40,
                          "params": {"collect_path": True, "precision": "Single", "lamb_init": linit, "validate_input": vi}}
                     out.append({"t": "run", "spec": spec, "cfg": c, "sc": G.scalings_of(spec, (0, 1))[si % 2]})
+    # accepted steps too short to move the point (huge inverse step size, iterates of magnitude 1e8): still one path column each
+    far = G.raw(3, {"H": [[1.0, 0.0, 0.0], [0.0, 2.0, 0.0], [0.0, 0.0, 0.5]], "g": [-1e8, -2e8, -0.5e8]}, [], ["-inf", "-inf", "-inf"], ["inf", "inf", "inf"],
+                [1e8 + 3.0, 1e8 - 2.0, 1e8 + 1.0], "stalled_steps|1e8")
+    for ctl in ("DistanceRatio", "Fixed", "ResiduumRatio"):
+        for linit in (1e10, 1e13):
+            out.append({"t": "run", "spec": far, "cfg": {"control": ctl, "iteration_limit": 60, "params": {"collect_path": True, "lamb_init": linit, "lamb_max": 1e30, "obj_lower_limit": -1e30}}, "sc": None})
     # long paths: thousands of accepted steps with path collection
     for prec in ("Double", "Single"):
         c = {"control": "Fixed", "iteration_limit": 2600 if tier == "quick" else 9000,
